@@ -187,11 +187,14 @@ func (x *Exec) frameEnv(st *State, fr *Frame) *CEnv {
 // load reads through p in the current heap view; the type invariants of the loaded
 // value (true in every reachable state) are added as side facts.
 func (e *CEnv) load(p *Ptr) *Val {
-	v := e.st.loadFrom(e.view(), p)
+	v, entry := e.st.loadFromE(e.view(), p)
 	if e.inOld {
 		return v // references in the old state are bounded by the old allocation counter; skip
 	}
 	f := e.st.wellFormed(v)
+	if entry {
+		f = and(f, e.st.entryClosed(p, v))
+	}
 	if e.sides != nil {
 		*e.sides = append(*e.sides, f)
 	} else {
@@ -932,7 +935,9 @@ func (e *CEnv) call(n *ast.CallExpr) *Val {
 		sub.inOld = true
 		return sub.eval(n.Args[0])
 	case "forall", "exists":
-		if len(n.Args) != 4 {
+		// optional 5th argument: a term over i used as the instantiation pattern of an assumed
+		// universal instead of the generic trigger predicate, e.g. forall(i, 0, n, P, g(i))
+		if len(n.Args) != 4 && !(len(n.Args) == 5 && fname == "forall") {
 			e.errf("%s(i, lo, hi, P) expects 4 arguments", fname)
 		}
 		id, ok := n.Args[0].(*ast.Ident)
@@ -989,7 +994,17 @@ func (e *CEnv) call(n *ast.CallExpr) *Val {
 		body := sub.eval(n.Args[3])
 		rng := and(m.le(lo, bv.S), m.lt(bv.S, hi))
 		if universal {
-			return boolVal(mkForallP(fmt.Sprintf("(%s %s)", bn, m.idx()), []string{fmt.Sprintf("(%s %s)", e.x.trUF(m.idx()), bn)}, e.quantBody(rng, sides, body.S, true)))
+			pat := fmt.Sprintf("(%s %s)", e.x.trUF(m.idx()), bn)
+			if len(n.Args) == 5 {
+				var psides []Tm
+				psub := *sub
+				psub.sides = &psides
+				pv := psub.eval(n.Args[4])
+				if pv.K == KInt || pv.K == KBool || pv.K == KPtr {
+					pat = pv.S.S
+				}
+			}
+			return boolVal(mkForallP(fmt.Sprintf("(%s %s)", bn, m.idx()), []string{pat}, e.quantBody(rng, sides, body.S, true)))
 		}
 		return boolVal(tm(SBool, "(exists ((%s %s)) %s)", bn, m.idx(), e.quantBody(rng, sides, body.S, false).S))
 	case "forallint":
@@ -1159,6 +1174,12 @@ func (e *CEnv) call(n *ast.CallExpr) *Val {
 	case "seqeq":
 		a := e.args(n, 2, "seqeq")
 		return boolVal(e.seqEq(e.toSeq(a[0]), e.toSeq(a[1])))
+	case "samearray":
+		// samearray(a, b): the whole backing arrays of two byte sequences hold the same bytes
+		// (array equality, no quantifier): with old(), "this backing array was not written"
+		a := e.args(n, 2, "samearray")
+		s1, s2 := e.toSeq(a[0]), e.toSeq(a[1])
+		return boolVal(and(eq(s1.S, s2.S), eq(s1.Fs[0].S, s2.Fs[0].S), eq(s1.Fs[1].S, s2.Fs[1].S)))
 	case "uvval", "uvlen":
 		// value / length of the uvarint at the start of a byte sequence (uninterpreted)
 		a := e.args(n, 1, fname)[0]
@@ -1199,7 +1220,8 @@ func (e *CEnv) call(n *ast.CallExpr) *Val {
 		lo := e.x.toIdx(st, e.typed(a[1], types.Typ[types.Int]))
 		ln := e.x.toIdx(st, e.typed(a[2], types.Typ[types.Int]))
 		// the first few positions of a sub-sequence are index terms (fixed-width fields are read from them)
-		for k := int64(0); k < 8; k += 1 {
+		// (not inside a quantifier: the offset may mention the bound variable)
+		for k := int64(0); k < 8 && len(e.qvars) == 0; k += 1 {
 			e.trigger(st.define("ss", m.add(lo, m.idxLit(k))))
 		}
 		return &Val{K: KSeq, S: s0.S, Fs: []*Val{scalar(nil, KInt, m.add(s0.Fs[0].S, lo)), scalar(nil, KInt, ln)}}
@@ -1560,6 +1582,18 @@ func (x *Exec) ghostSort(m Mode, gd *GhostDecl) Sort {
 }
 
 func ghostIsConst(gd *GhostDecl) bool { return strings.Contains(gd.Result, "const") }
+
+// ghostIsLocal: "ghost g(..) T local" - auxiliary state of one function's proof (set by its
+// "after .. ghostset" clauses, read by its own invariants and posts); inlined instances of the
+// function do not maintain it and no frame condition is generated for it.
+func ghostIsLocal(gd *GhostDecl) bool {
+	for _, f := range strings.Fields(gd.Result)[1:] {
+		if f == "local" {
+			return true
+		}
+	}
+	return false
+}
 
 func (e *CEnv) ghostKeyTerm(gd *GhostDecl, i int, v *Val) Tm {
 	kk := gd.Keys[i]
